@@ -21,7 +21,7 @@ def run(tier, rng, C):
                       'nontrivial': True, 'cyclic': cyc, 'nrefs': sum(V.count_refs(l) for l in layers)})
     # sharing: the same reference used many times, diamonds
     for i in range(60 if tier == 'quick' else 600):
-        k = rng.randint(2, 20)
+        k = rng.choice([rng.randint(2, 20), rng.randint(2, 20), 66, 70, 130])
         es = [(S('base'), M(('x', I(1)))), (S('a'), S('${base}')), (S('b'), S('${base}')),
               (S('many'), ('l', [S('${a}')] * k)), (S('emb'), S(' '.join(['${a:x}'] * k))),
               (S('dia'), M(('l', S('${a}')), ('r', S('${b}'))))]
@@ -29,6 +29,21 @@ def run(tier, rng, C):
         layers = [('m', es)]
         cases.append({'id': cid, 'line': V.stack_line(cid, 'value', layers), 'show': V.stack_show(layers),
                       'nontrivial': True, 'cyclic': False, 'nrefs': 3 * k})
+    # sibling references in one string / list, each through an alias chain: the resolutions of one
+    # sibling must not count against the next (total resolutions > 64, nesting < 64)
+    for i in range(20 if tier == 'quick' else 300):
+        hops = rng.randint(2, 12)
+        sib = rng.randint(64 // hops + 1, 64 // hops + 6)
+        es = [(S('v0'), rng.choice([I(5), S('txt'), B(True), N]))]
+        es += [(S('v%d' % h), S('${v%d}' % (h - 1))) for h in range(1, hops)]
+        es.append((S('emb'), S('-'.join(['${v%d}' % (hops - 1)] * sib))))
+        es.append((S('lst'), ('l', [S('${v%d}' % (hops - 1))] * sib)))
+        rng.shuffle(es)
+        cid = C.case_id('s', i)
+        layers = [('m', es)]
+        cases.append({'id': cid, 'line': V.stack_line(cid, 'value', layers),
+                      'show': '%d sibling references, each through a chain of %d aliases: %s' % (sib, hops, V.stack_show(layers)[:300]),
+                      'nontrivial': True, 'cyclic': False, 'nrefs': 0, 'chain': hops})
     # chains around the documented limit of 64
     for ln in list(range(60, 70)) + [2, 10, 33]:
         cid = C.case_id('k', ln)
